@@ -4,3 +4,4 @@ import FggsModel.Scc
 import FggsModel.Interp
 import FggsModel.Graph
 import FggsModel.Replace
+import FggsModel.Json
